@@ -22,6 +22,12 @@ CHECKS["C13"] = ("exploration", "generated-text enumeration (all member orders /
 CHECKS["C05"] = ("fault_enumeration", "environment-answer exploration: exhaustive reader schedules (cut sets, empty reads, data+EOF, single transient faults) x call-program interleavings on the real Decoder, compared with whole-input decoding and a reference decoder model",
   "The harness owns the io.Reader. For every interesting document (valid, viable or first-error) of two alphabet views, every ReadToken/ReadValue/SkipValue/PeekKind program (exhaustive up to a length, deviation-bounded beyond) is run on the whole input and checked against the reference decoder model, then re-run under every reader schedule of the class (all 2^(n-1) cut sets for short inputs; <=2 cuts + one-byte reader otherwise; x empty reads x data-with-EOF) comparing every observable after every call plus the invariant bytes-taken == InputOffset ++ UnreadBuffer; a transient fault before every Read call with retry; sweeps of critical tokens across every offset around the 64..8192 buffer sizes under three growth histories; UnmarshalRead/UnmarshalDecode vs Unmarshal.",
   "Trusted: reference decoder model; a *bytes.Buffer source counts as 'the whole byte slice'. Error message text is not compared (documented as unstable).", "2/C05")
+CHECKS["C03"] = ("exploration", "bounded-exhaustive valid-text enumeration through every decode route/target/option path against the reference value tree",
+  "Every text of the alphabet views valid under default options, plus stressors (look-alike strings sharing first/last 8 bytes, 400 two-byte strings in two orders, escape placement across buffer sizes, wide objects, 1000-deep nesting, float64 extremes) x 4 routes x 4 targets x 3 option sets that switch internal code paths; DeepEqual with the Go image of the reference tree; encoding/json as second opinion.",
+  "Trusted: reference recognizer/tree; strconv.ParseFloat correctly rounded.", "2/C03")
+CHECKS["C16"] = ("model_checking", "explicit-state exploration of real Decoder/Encoder positions against reference models, plus exhaustive invalid-text error-location checks against the reference recognizer's viable-prefix and open-container computation",
+  "(a) pointer-sensitive documents x every call program on a real Decoder and every call sequence over a pointer-sensitive alphabet on a real Encoder, all observables compared with the models after every call; pointers observed only after N unobserved calls for every N (StackPointer has a side effect that can mask stale names); (b) Pointer algebra on all token sequences <=3; (c) every invalid string of the alphabet views x 3 paths: prefix before ByteOffset viable, offset not before the offending token, pointer designates the innermost slot or its container; (d) SemanticError pointer/offset for one unconvertible value at each of 12 positions.",
+  "Trusted: reference recognizer (viable prefix, open containers) and coder models.", "2/C16")
 NOT_YET = {}
 def main():
     props=[json.loads(l)["id"] for l in open("properties.jsonl")]
